@@ -776,4 +776,6 @@ func runC20(c *Ctx) {
 	c20E2E(c)
 	// ---- round 5: shared helpers on rare shapes (c20_r5.go)
 	c20R5(c)
+	// ---- round 6: per-request state of the web handlers (c20_r6.go)
+	c20R6(c)
 }
